@@ -12,6 +12,8 @@
 (* Part 2  the manual's line grammar as an abstract value and Render(line, choice): all spellings the   *)
 (*         manual calls equivalent (case, blanks/tabs, comment, CR-LF, optional colon).                 *)
 (* Part 3  the property:  Norm(Split(ReadLine(Render(L, c)), P)) = Norm(L) for every choice c.          *)
+(* Part 4  compound operand fields: the secondary splitters of the code generators (FirstBlank & co.)   *)
+(*         and the immateriality of the white space between the INNER fields (blank/tab/mixed).         *)
 (*                                                                                                     *)
 (* Deliberate deviations of the code are kept and named (CRSplitFromLF, NegativeBracket, LastDividerOnly, *)
 (* DeadColonStrip, NulIsDivider); lengths are assumed < STRINGSIZE (no truncation modelled).            *)
@@ -312,4 +314,199 @@ SpellingImmaterial(L, c, P) == Norm(Fields(Split(ReadLine(<<Render(L, c, P)>>), 
 
 \* two concrete spellings of one statement split into the same fields (used on recorded lines)
 SameStatement(raw1, raw2, P) == Norm(Fields(Split(raw1, P)), P) = Norm(Fields(Split(raw2, P)), P)
+
+------------------------------------------------------------------------------------------------------
+(* Part 4: compound operand fields - the SECOND field split.                                            *)
+(*                                                                                                     *)
+(* Some statements carry further white-space separated fields inside ONE comma-delimited parameter:     *)
+(*   MSP430X     rptc #5 addx.w r4,r7      multiplier, mnemonic.attr and first operand of the repeated   *)
+(*               rptz r6 rrcx r7           statement                    (codemsp.c DecodeRPT)            *)
+(*   TMS320C6x   || [b0] add.l1 a0,a1,a5   parallel bars / condition in front of the statement          *)
+(*                                                                      (code3206x.c ReiterateOpPart)   *)
+(*   uPD772x     op mov @a,b               (code7720.c DecodeOP)                                         *)
+(*   SH-DSP      dct <statement>           (code7000.c DecodeDCT_DCF; generates no code in this tree)     *)
+(*   Rabbit      altd inc iy               ALTD / IOI / IOE prefixes    (codez80.c StripPref)            *)
+(*   68HC11/12   brclr $20 #$40 *          blank separated operands     (code68.c, code6812.c Try2Split) *)
+(*   uPD77230    mov wr0,psw1 jnzrp target sub-instructions of one word (code77230.c SplitArgs/DiscardArgs) *)
+(*   preprocessor  #define NAME text       (asmmac.c Preprocess; not described in the manual)             *)
+(* as.c SplitLine() hands such a parameter over unchanged (inner white space included, only the ends    *)
+(* trimmed); the code generator splits it again with one of the SECONDARY SPLITTERS transcribed here.   *)
+(* The manual (Format of the Input Files): "To separate the individual components you may also use      *)
+(* tabulators instead of spaces" - amount and KIND of white space (blanks, tabs, mixtures of both in any  *)
+(* order) between the inner fields is as immaterial as between label, mnemonic and parameters.          *)
+(* This dimension was missing: a changed asmsub.c FirstBlank() that takes the LATER of the first blank   *)
+(* and the first tab (instead of the earlier) passes every golden test and every rewrite of the top-     *)
+(* level field boundaries, but rejects `rptc #5<TAB>addx.w r4,r7` and drops `rptz r6<TAB>addx.w r4,r7`.  *)
+
+MaxOf(S) == CHOOSE x \in S : \A y \in S : x >= y
+StrChr1(s, ch) == LET S == {i \in 1..Len(s) : s[i] = ch} IN IF S = {} THEN 0 ELSE MinOf(S)      \* strchr, 0 = NULL
+StrRChr1(s, ch) == LET S == {i \in 1..Len(s) : s[i] = ch} IN IF S = {} THEN 0 ELSE MaxOf(S)     \* strrchr
+
+\* asmsub.c FirstBlank(): Min = NULL; the first blank, then the first tab, each taken if (!Min || h < Min)
+FirstBlank(s) ==
+  LET hb   == StrChr1(s, SPC)
+      min1 == hb                                     \* (!Min) holds: the blank, if any, is taken
+      ht   == StrChr1(s, TAB)
+  IN  IF ht # 0 /\ (min1 = 0 \/ ht < min1) THEN ht ELSE min1
+
+RECURSIVE KillPref(_)
+KillPref(s) == IF Len(s) > 0 /\ IsSpace(s[1]) THEN KillPref(Tail(s)) ELSE s                      \* strutil.c KillPrefBlanks
+FirstSpace(s) == LET S == {i \in 1..Len(s) : IsSpace(s[i])} IN IF S = {} THEN 0 ELSE MinOf(S)
+RightOf(s, p) == Cut(s, p + 1, Len(s))
+LeftOf(s, p)  == Cut(s, 1, p - 1)
+OpAttrAt(s, p) == IF p = 0 THEN [op |-> s, attr |-> <<>>] ELSE [op |-> LeftOf(s, p), attr |-> RightOf(s, p)]
+
+(* A statement as SplitLine() leaves it: st = [op, attr, args].  Every re-split yields                  *)
+(*   [ok, pre, op, attr, args]:  pre = the prefix fields consumed, [op, attr, args] = the statement that *)
+(* is assembled afterwards (mnemonics upper-cased as the code does); ok = FALSE: rejected.               *)
+Rejected == [ok |-> FALSE, pre |-> <<>>, op |-> <<>>, attr |-> <<>>, args |-> <<>>]
+
+\* codemsp.c DecodeRPT(): "#n|Rn <blank> mnemonic[.attr] <blank> operand": two FirstBlank() cuts, both required
+\* (RPTNeedsOperand: a repeated statement without operand cannot be written - kept as in the code)
+MspRPT(st) ==
+  IF st.args = <<>> \/ st.attr # <<>> THEN Rejected
+  ELSE LET a1 == st.args[1]
+           p1 == FirstBlank(a1)
+       IN  IF p1 = 0 THEN Rejected                                        \* ErrNum_CannotSplitArg
+           ELSE LET r1 == KillPref(RightOf(a1, p1))
+                    p2 == FirstBlank(r1)
+                IN  IF p2 = 0 THEN Rejected
+                    ELSE LET o  == UpStr(LeftOf(r1, p2))
+                             oa == OpAttrAt(o, StrRChr1(o, DOT))
+                         IN  [ok |-> TRUE, pre |-> <<st.op, LeftOf(a1, p1)>>, op |-> oa.op, attr |-> oa.attr,
+                              args |-> <<KillPref(RightOf(r1, p2))>> \o Tail(st.args)]
+
+\* code3206x.c ReiterateOpPart() / code7720.c DecodeOP() / code7000.c DecodeDCT_DCF(): the first field of the
+\* first parameter becomes the mnemonic.  dot: the C6x cuts the unit off at the first "."; trim: the SH-DSP
+\* variant does not remove the blanks in front of the remaining operand (DCTKeepsBlanks)
+Reiterate(st, dot, trim) ==
+  IF st.args = <<>> THEN Rejected
+  ELSE LET a1 == st.args[1]
+           p  == FirstBlank(a1)
+           o  == UpStr(IF p = 0 THEN a1 ELSE LeftOf(a1, p))
+           oa == IF dot THEN OpAttrAt(o, StrChr1(o, DOT)) ELSE [op |-> o, attr |-> <<>>]
+           r  == IF p = 0 THEN <<>> ELSE <<IF trim THEN KillPref(RightOf(a1, p)) ELSE RightOf(a1, p)>>
+       IN  [ok |-> TRUE, pre |-> <<st.op>>, op |-> oa.op, attr |-> oa.attr, args |-> r \o Tail(st.args)]
+
+\* code3206x.c MakeCode_3206X(): "||" as mnemonic, then "[cond]" as mnemonic, each re-iterated once
+C6xPrefixes(st) ==
+  LET s1 == IF st.op = <<124, 124>> THEN Reiterate(st, TRUE, TRUE) ELSE [ok |-> TRUE, pre |-> <<>>, op |-> st.op, attr |-> st.attr, args |-> st.args]
+      s2 == IF s1.ok /\ Len(s1.op) > 0 /\ s1.op[1] = LBRK
+            THEN LET r == Reiterate([op |-> s1.op, attr |-> s1.attr, args |-> s1.args], TRUE, TRUE)
+                 IN  [r EXCEPT !.pre = s1.pre \o r.pre]
+            ELSE s1
+  IN  s2
+
+\* codez80.c StripPref(): ALTD / IOI / IOE: the mnemonic ends at the first isspace() character, the operand
+\* starts at the next character that is none
+RabbitPref(st) ==
+  IF st.args = <<>> THEN [ok |-> TRUE, pre |-> <<st.op>>, op |-> <<>>, attr |-> <<>>, args |-> <<>>]
+  ELSE LET a1 == st.args[1]
+           p  == FirstSpace(a1)
+           o  == UpStr(IF p = 0 THEN a1 ELSE LeftOf(a1, p))
+           r  == IF p = 0 THEN <<>> ELSE KillPref(RightOf(a1, p))
+       IN  [ok |-> TRUE, pre |-> <<st.op>>, op |-> o, attr |-> st.attr,
+            args |-> (IF r = <<>> THEN <<>> ELSE <<r>>) \o Tail(st.args)]
+
+\* code68.c / code6812.c Try2Split(Src): the parameter is cut at its LAST isspace() character (which must not
+\* be its first character: code68.c tests p > start, code6812.c p >= start; no difference behind KillPrefBlanks)
+SplitLast(a) ==
+  LET b == TrimR(KillPref(a))
+      S == {i \in 2..Len(b) : IsSpace(b[i])}
+  IN  IF S = {} THEN <<b>> ELSE <<TrimR(LeftOf(b, MaxOf(S))), KillPref(RightOf(b, MaxOf(S)))>>
+Try2Split(args, src) ==
+  IF src < 1 \/ src > Len(args) THEN args
+  ELSE SubSeq(args, 1, src - 1) \o SplitLast(args[src]) \o SubSeq(args, src + 1, Len(args))
+\* DecodeBrBit / DecodeBRxx (BRSET BRCLR) and DecodeBit (BSET BCLR): which parameters are tried
+HC12BrBit(st) ==
+  LET n  == Len(st.args)
+      a1 == IF n = 1 THEN Try2Split(Try2Split(st.args, 1), 1)
+            ELSE IF n = 2 THEN LET x == Try2Split(st.args, 2) IN Try2Split(x, 2) ELSE st.args
+  IN  [ok |-> TRUE, pre |-> <<>>, op |-> UpStr(st.op), attr |-> st.attr, args |-> a1]
+HC12Bit(st) ==
+  LET n == Len(st.args) IN
+  [ok |-> TRUE, pre |-> <<>>, op |-> UpStr(st.op), attr |-> st.attr,
+   args |-> IF n \in {1, 2} THEN Try2Split(st.args, n) ELSE st.args]
+
+\* code77230.c SplitArgs(Count) + DiscardArgs(): the Count-th parameter ends at the first blank or tab outside
+\* quotes and parentheses (QuotPos of each, the earlier one); the next sub-instruction's mnemonic is the following
+\* token, its first parameter whatever follows the next run of white space
+Chain77230(a) ==
+  LET b  == KillPref(a)
+      p1 == QPos(b, 1, << <<SPC>> >>, QQ_NONE)
+      p2 == QPos(b, 1, << <<TAB>> >>, QQ_NONE)
+      d  == IF p1 = 0 \/ (p2 # 0 /\ p2 < p1) THEN p2 ELSE p1
+  IN  IF d = 0 THEN [own |-> b, op |-> <<>>, rest |-> <<>>]
+      ELSE LET r == KillPref(RightOf(b, d))
+               e == FirstSpace(r)
+           IN  [own |-> LeftOf(b, d), op |-> UpStr(IF e = 0 THEN r ELSE LeftOf(r, e)),
+                rest |-> IF e = 0 THEN <<>> ELSE KillPref(RightOf(r, e))]
+
+\* asmmac.c Preprocess(): h = the text behind "#": command, (for DEFINE) name and replacement text
+PreprocFields(h) ==
+  LET p  == FirstBlank(h)
+      c  == IF p = 0 THEN h ELSE LeftOf(h, p)
+      r  == TrimR(KillPref(IF p = 0 THEN <<>> ELSE RightOf(h, p)))
+      p2 == FirstBlank(r)
+  IN  IF p2 = 0 THEN <<UpStr(c), r>> ELSE <<UpStr(c), LeftOf(r, p2), KillPref(RightOf(r, p2))>>
+
+Resplit(kind, st) == CASE kind = "rpt"   -> MspRPT(st)
+                       [] kind = "c6x"   -> C6xPrefixes(st)
+                       [] kind = "op"    -> Reiterate(st, FALSE, TRUE)
+                       [] kind = "dct"   -> Reiterate(st, FALSE, FALSE)
+                       [] kind = "pref"  -> RabbitPref(st)
+                       [] kind = "brbit" -> HC12BrBit(st)
+                       [] kind = "bit"   -> HC12Bit(st)
+                       [] OTHER          -> [ok |-> TRUE, pre |-> <<>>, op |-> UpStr(st.op), attr |-> st.attr, args |-> st.args]
+
+(* declarative side.  A compound field is a sequence of components (non-empty, free of white space);   *)
+(* it is WRITTEN as the components joined by gaps, a gap being any non-empty sequence of blanks and     *)
+(* tabulators.  Reading is independent of the secondary splitters: the maximal runs of non-space        *)
+(* characters.                                                                                          *)
+RECURSIVE JoinGaps(_, _, _)
+JoinGaps(comps, gaps, k) == IF k > Len(comps) THEN <<>>
+                            ELSE (IF k > 1 THEN gaps[((k - 2) % Len(gaps)) + 1] ELSE <<>>) \o comps[k] \o JoinGaps(comps, gaps, k + 1)
+RECURSIVE WsTokens(_)
+WsTokens(s) == LET b == KillPref(s) IN
+               IF b = <<>> THEN <<>>
+               ELSE LET e == FirstSpace(b) IN IF e = 0 THEN <<b>> ELSE <<LeftOf(b, e)>> \o WsTokens(RightOf(b, e))
+RECURSIVE FlatTokens(_, _)
+FlatTokens(parts, k) == IF k > Len(parts) THEN <<>> ELSE WsTokens(parts[k]) \o FlatTokens(parts, k + 1)
+
+\* a secondary splitter cuts at component boundaries only, loses nothing and takes exactly one component
+CutsOneFirst(s, head, rest) == WsTokens(s) # <<>> /\ head = WsTokens(s)[1] /\ WsTokens(rest) = Tail(WsTokens(s))
+CutsOneLast(s, parts) == LET t == WsTokens(s) IN
+                         IF Len(t) <= 1 THEN parts = t
+                         ELSE Len(parts) = 2 /\ parts[2] = t[Len(t)] /\ WsTokens(parts[1]) = SubSeq(t, 1, Len(t) - 1)
+
+\* the normal form of a re-split statement: case folded, the white space that is left INSIDE an operand
+\* (behind the last cut) reduced to its components
+NormR(r) == [ok |-> r.ok, pre |-> [k \in 1..Len(r.pre) |-> UpStr(r.pre[k])], op |-> UpStr(r.op), attr |-> UpStr(r.attr),
+             args |-> [k \in 1..Len(r.args) |-> [j \in 1..Len(WsTokens(r.args[k])) |-> UpStr(WsTokens(r.args[k])[j])]]]
+
+(* A compound statement CS = [lab, op, comps, more]: the first parameter consists of comps, `more` are   *)
+(* the further comma-separated parameters.  It is rendered like every line (Render) with the first       *)
+(* parameter written as JoinGaps(comps, g); g = the gap choice, the new rendering dimension.             *)
+CompoundLine(CS, g) == [lab |-> CS.lab, op |-> CS.op, attr |-> <<>>, args |-> <<JoinGaps(CS.comps, g, 1)>> \o CS.more]
+RenderC(CS, c, g, P) == Render(CompoundLine(CS, g), c, P)
+StmtOf(f) == [op |-> f.op, attr |-> f.attr, args |-> f.args]
+ResplitLine(kind, raw, P) == Resplit(kind, StmtOf(Split(raw, P)))
+
+\* the property for one compound statement: whatever gaps (and whatever top-level spelling) are chosen, the
+\* statement that is finally assembled is the one the single-blank spelling yields
+OneBlank == << <<SPC>> >>
+GapsImmaterial(kind, CS, c, g, cref, P) ==
+  NormR(ResplitLine(kind, ReadLine(<<RenderC(CS, c, g, P)>>), P)) = NormR(ResplitLine(kind, RenderC(CS, cref, OneBlank, P), P))
+
+\* ... and, for the prefix forms, that statement is the one the text behind the prefix is ON A LINE OF ITS OWN
+\* (from: index of the component that is the inner mnemonic)
+InnerAlone(CS, from, cref, P) ==
+  LET txt   == cref.lead \o JoinGaps(SubSeq(CS.comps, from, Len(CS.comps)), OneBlank, 1)
+               \o (IF CS.more = <<>> THEN <<>> ELSE <<P.div[1]>> \o JoinArgs(CS.more, 1, <<P.div[1]>>))
+  IN  StmtOf(Split(txt, P))
+PrefixIsTransparent(kind, CS, from, c, g, cref, P) ==
+  LET r == NormR(ResplitLine(kind, ReadLine(<<RenderC(CS, c, g, P)>>), P))
+      a == InnerAlone(CS, from, cref, P)
+      n == NormR([ok |-> TRUE, pre |-> <<>>, op |-> a.op, attr |-> a.attr, args |-> a.args])
+  IN  r.ok /\ r.op = n.op /\ r.attr = n.attr /\ r.args = n.args
 ===============================================================================
